@@ -171,9 +171,18 @@ def _accepted(u):
 
 
 # ------------------------------------------------------------------ cases
+class _TableGap(Exception):
+    """An element is present under one kind of key and missing under the other (a property violation,
+    not a harness error)."""
+
+
 def check_case(case, ctx):
     ctx.trace()
-    return _KINDS[case['kind']](case, ctx)
+    try:
+        return _KINDS[case['kind']](case, ctx)
+    except _TableGap as e:
+        ctx.fail('every element is present under its symbol and under its atomic number',
+                 dict(group=case['kind'], table='atomic_weight'), case, str(e), 'present under both keys')
 
 
 def _k_member(case, ctx):
@@ -857,11 +866,16 @@ def _weight_other_key(key):
     """Atomic weight of `key` looked up under the *other* kind of key."""
     aw = _c().atomic_weight
     if isinstance(key, str):
-        return aw[U.z_of(key)]
+        z = U.z_of(key)
+        if z not in aw:
+            raise _TableGap('atomic_weight has %r but not atomic number %r' % (key, z))
+        return aw[z]
     for s in U.symbols_of(key):
         if s in aw:
             return aw[s]
-    raise KeyError(key)
+    raise _TableGap('atomic_weight has atomic number %r but none of the symbols %r' % (key, U.symbols_of(key)))
+
+
 
 
 def _k_mw_dict(case, ctx):
